@@ -69,7 +69,8 @@ namespace
 	{
 	  assert (t.m_children.size () == 1);
 	  auto origin = std::make_shared <op_origin> (l);
-	  auto op = build_exec (t.child (0), l, rdv_ll, origin, bn, up);
+	  bindings scope {bn};
+	  auto op = build_exec (t.child (0), l, rdv_ll, origin, scope, up);
 	  return std::make_unique <pred_subx_any> (op, origin);
 	}
 
@@ -133,7 +134,8 @@ namespace
 	  for (size_t i = 0; i < t.m_children.size (); ++i)
 	    {
 	      auto tine = std::make_shared <op_tine> (*merge, i);
-	      auto op = build_exec (t.m_children[i], l, rdv_ll, tine, bn, up);
+	      bindings scope {bn};
+	      auto op = build_exec (t.m_children[i], l, rdv_ll, tine, scope, up);
 	      merge->add_branch (op);
 	    }
 
@@ -146,7 +148,8 @@ namespace
 	  for (auto const &ch: t.m_children)
 	    {
 	      auto origin2 = std::make_shared <op_origin> (l);
-	      auto op = build_exec (ch, l, rdv_ll, origin2, bn, up);
+	      bindings scope {bn};
+	      auto op = build_exec (ch, l, rdv_ll, origin2, scope, up);
 	      o->add_branch (origin2, op);
 	    }
 	  return o;
@@ -181,7 +184,8 @@ namespace
 	      else
 		{
 		  auto origin2 = std::make_shared <op_origin> (l);
-		  auto op = build_exec (tree, l, rdv_ll, origin2, bn, up);
+		  bindings scope {bn};
+		  auto op = build_exec (tree, l, rdv_ll, origin2, scope, up);
 		  strgr = std::make_shared <stringer_op> (l, strgr,
 							  origin2, op);
 		}
